@@ -84,9 +84,10 @@ def coq_natlist(xs):
 # ------------------------------------------------------------------------------------------------
 # typed test values
 
-FLOATS = [1.5, -0.75, 0.0, 3.0, 1024.5, -0.001953125]
+FLOATS = [1.5, -0.75, 0.0, 3.0, 1024.0, -0.001953125, 96.5]
 PERMS = list(itertools.permutations(range(3)))
 NUMERIC = ('secint', 'secfxp', 'secfld')
+TUPLE_SHARE = ('symgrp',)      # secure group elements whose share is a tuple of field elements
 
 
 def make_env(mpc):
@@ -285,10 +286,12 @@ def run_ops(m, t, ops, seed, no_prss=False, policy=None, idle_limit=300):
     from lib.sim import Sim
     sim = Sim(m, t, no_prss=no_prss, seed=seed)
     excs = []
+    closing = []
 
     def handler(loop, c):
         e = c.get('exception')
-        excs.append(type(e).__name__ if e is not None else str(c.get('message'))[:80])
+        if e is not None and not closing and type(e).__name__ != 'CancelledError':
+            excs.append(type(e).__name__)
     sim.loop.set_exception_handler(handler)
     recs = [[] for _ in range(m)]
     out = {'recs': recs, 'excs': excs, 'm': m, 't': t}
@@ -335,6 +338,7 @@ def run_ops(m, t, ops, seed, no_prss=False, policy=None, idle_limit=300):
         out['wire_ok'] = wire_ok
         out['frames'] = {(i, j): sim.frames(i, j)[0] for i in range(m) for j in range(m) if i != j}
     finally:
+        closing.append(True)
         sim.close()
     return out
 
@@ -636,11 +640,19 @@ def check_batch(ctx, m, t, no_prss, ops, run, exprs, meta, tag):
             n = op.get('n')
             st = op['stype']
             bad = []
+            badlen = []
             for j in range(m):
                 got = recs[j]['res']
                 want = recs[j]['want'] if j in R else [None] * len(recs[j]['want'])
                 if got != want:
-                    bad.append({'party': j, 'got': repr(got)[:200], 'want': repr(want)[:200]})
+                    if (j not in R and isinstance(got, list) and all(g is None for g in got) and st in TUPLE_SHARE
+                            and n is not None):
+                        badlen.append({'party': j, 'got': repr(got)[:200], 'want': repr(want)[:200]})
+                    else:
+                        bad.append({'party': j, 'got': repr(got)[:200], 'want': repr(want)[:200]})
+            if badlen:
+                ctx.violation('output secgrp tuple-share list non-receiver None-count stype=%s m=%d' % (st, m),
+                              {'config': cfg, 'op': describe(op), 'k': k, 'bad': badlen})
             vals = {repr(recs[j]['res']) for j in R if j < m}
             if len(vals) > 1:
                 bad.append({'receivers disagree': sorted(vals)})
@@ -651,9 +663,13 @@ def check_batch(ctx, m, t, no_prss, ops, run, exprs, meta, tag):
                 th = t if op.get('threshold') is None else op['threshold']
                 p = recs[0]['p']
                 rows = '[%s]%%Z' % '; '.join('[%s]' % '; '.join(str(v) for v in recs[j]['shares']) for j in range(m))
-                exprs.append('(map (fun p => (out_sends %d %d %s p, out_recvs %d %d %s p)) (seq 0 %d), '
-                             'map (fun r => zp_output (%d)%%Z %d %d %s r %s) (seq 0 %d))'
-                             % (m, th, coq_natlist(R), m, th, coq_natlist(R), m, p, m, th, coq_natlist(R), rows, m))
+                routes = 'map (fun p => (out_sends %d %d %s p, out_recvs %d %d %s p)) (seq 0 %d)' % (
+                    m, th, coq_natlist(R), m, th, coq_natlist(R), m)
+                values = 'map (fun r => zp_output (%d)%%Z %d %d %s r %s) (seq 0 %d)' % (
+                    p, m, th, coq_natlist(R), rows, m)
+                # the recombined values are the costly part of the model evaluation: a bounded random sample
+                with_values = ctx.rng.random() < ctx.n(0.3, 1.0)
+                exprs.append('(%s, %s)' % (routes, values) if with_values else '(%s, @nil (option (list Z)))' % routes)
                 meta.append(('output', cfg, op, k, recs))
             ctx.case({'cfg': cfg, 'op': op}, nontrivial=m >= 2 and 0 < len(set(R)) and nmsg > 0, kind='output/' + st)
     if stuck is not None:
@@ -725,12 +741,16 @@ def compare_model(ctx, res, meta):
             routes, vals = r
             st = op['stype']
             p = recs[0]['p']
+            if vals:
+                ctx.extra['output_values_compared'] = ctx.extra.get('output_values_compared', 0) + 1
             for pid in range(m):
                 ms, mr = routes[pid]
                 if sends_of(recs[pid]) != ms:
                     diffs.append((pid, 'sends', sends_of(recs[pid]), ms))
                 if recvs_of(recs[pid]) != mr:
                     diffs.append((pid, 'recvs', recvs_of(recs[pid]), mr))
+                if not vals:
+                    continue
                 mv = vals[pid]
                 got = recs[pid]['res']
                 if mv is None:
@@ -848,7 +868,7 @@ def run(ctx):
                          '*_refuted / *_error describe the unrepaired code')
     ctx.log('%d simulator cases; evaluating %d model expressions in Coq' % (ctx.evaluations, len(exprs)))
     if ok:
-        res = ctx.coq_eval(['MPyC.Routing'], exprs, chunk=120)
+        res = ctx.coq_eval(['MPyC.Routing'], exprs, chunk=250)
         normal = [(r, mt) for r, mt in zip(res, meta) if mt[0] != 'risky']
         mism = compare_model(ctx, [r for r, _ in normal], [mt for _, mt in normal])
         nr = 0
